@@ -63,6 +63,62 @@ theorem autosave_old_style_fails :
 example : (seenHist .inPlace [.load (exLoad [2, 2] true true) none] ⟨some [1], ⟨some [1], none⟩⟩).map (·.path)
     = [some [1], some [], some [], some [2], some [2, 2], some [2, 2], some [2, 2]] := by decide
 
+/-- no injected fault -/
+def AEvent.faultFree : AEvent → Prop
+  | .load _ ft => ft = none
+  | .restart => True
+
+/-- with an O_EXCL temp file, once a temp file exists nothing is ever saved again: no load of
+    any later history, in any later process, changes either file -/
+theorem autosave_excl_wedged : ∀ (evs : List AEvent) (a : AState), a.fs.tmp.isSome = true →
+    (∀ e ∈ evs, e.faultFree) → (runLoads .tmpExcl evs a).fs = a.fs
+  | [], _, _, _ => rfl
+  | .restart :: es, a, h, hf => by
+    simp only [runLoads, AEvent.step]
+    exact autosave_excl_wedged es _ h (fun e he => hf e (by simp [he]))
+  | .load l ft :: es, a, h, hf => by
+    have hft : ft = none := hf (.load l ft) (by simp)
+    subst hft
+    have hstep : ((AEvent.load l none).step .tmpExcl a).fs = a.fs := by
+      simp only [AEvent.step, loadStep]
+      split
+      · rfl
+      · split
+        · rfl
+        · split
+          · simp [autosaveOps, runOps, ffires, FOp.refused, h]
+          · rfl
+    simp only [runLoads]
+    rw [autosave_excl_wedged es _ (by rw [hstep]; exact h) (fun e he => hf e (by simp [he])), hstep]
+
+/-- **autosave_recovers_after_interrupted_autosave fails for an O_EXCL temp file.**  `[1]` is
+    saved; the autosave of `[2]` is killed between creating the temp file and writing it; from then
+    on, through any fault-free history and for every later load, the autosave file stays `[1]`:
+    `--resume` comes back with an outdated config. -/
+theorem autosave_excl_fails :
+    ∀ (evs : List AEvent), (∀ e ∈ evs, e.faultFree) → ∀ (l : Load),
+      resumeConfig (runLoads .tmpExcl
+        (.load (exLoad [2] true true) (some ⟨2, .killBefore⟩) :: .restart :: (evs ++ [.load l none]))
+        ⟨none, ⟨some [1], none⟩⟩) = some [1] := by
+  intro evs hf l
+  simp only [runLoads, resumeConfig]
+  have h0 : ((AEvent.restart).step .tmpExcl ((AEvent.load (exLoad [2] true true) (some ⟨2, .killBefore⟩)).step .tmpExcl
+      ⟨none, ⟨some [1], none⟩⟩)) = ⟨none, ⟨some [1], some []⟩⟩ := by decide
+  rw [h0]
+  have hw := autosave_excl_wedged (evs ++ [.load l none]) ⟨none, ⟨some [1], some []⟩⟩ rfl
+    (fun e he => by
+      simp only [List.mem_append, List.mem_singleton] at he
+      rcases he with he | he
+      · exact hf e he
+      · subst he; rfl)
+  rw [hw]
+
+/-- the same history under the current code ends with the new config (instance of
+    `autosave_recovers_after_interrupted_autosave`, evaluated) -/
+example : resumeConfig (runLoads codeStyle
+      [.load (exLoad [2] true true) (some ⟨2, .killBefore⟩), .restart, .load (exLoad [3] true true) none]
+      ⟨none, ⟨some [1], none⟩⟩) = some [3] := by decide
+
 /-- **what `Start` is needed for.**  Current order, intermediate lifetime 0: start-up 2 dies
     after writing the new intermediate key (operation 7).  `Provision` of start-up 3 then
     returns certificate 2 with key 3 — a mismatched pair; it is the renewal in `Start` (the
